@@ -182,6 +182,22 @@ CLAIMED = {
              "(F9a-g) and are excluded from the delta comparison by syntactic class, each probed on every run.",
         technique="Lean 4 proof (scanner lemmas, kernel-checked complete tables) + three-way lexer correspondence",
         design="§4 C14"),
+    "C15": dict(
+        text="The second-generation parser is written as data (an action language: take / branch on token / push nodes / call / "
+             "fail; one nonterminal per function or loop of parser.rs) with an interpreter. A checker walks the table once and "
+             "a generic soundness theorem lifts its verdict to every run: for EVERY list of token kinds (valid or not) the parser "
+             "pushes at most 4*tokens+6 nodes (potential argument; the pinned capacity 5+2*tokens is refuted by a kernel-evaluated "
+             "valid module, and was the cause of a panic on a repo test sample — fixed), and the cursor stays inside the token "
+             "array (a taken EndOfSource fails at once). Tie: on every input the real lexer accepts, the exact sequence of node "
+             "variants in the real buffer (also after errors), declaration count and error codes must equal the model's. "
+             "Totality / memory safety at run time is exercised, not proved: isolated workers run lex->parse->errors/"
+             "build_header/as_xml on random bytes, mutated corpus, token soup, all token sequences up to length 2 (3 thorough), "
+             "density extremes, token-limit excess (E103). Partial: termination and the lexer's buffer bookkeeping are not "
+             "theorems; no sanitizer is used (not part of this technique).",
+        note="Trusted: Lean kernel, the hand-written table (tied by the node-sequence comparison), Debug formatting of ParseNode, "
+             "harness. Known finding F26: stack exhaustion on bracket nesting >= 2000 (no recursion limit).",
+        technique="Lean 4 proof by reflection (checked table + generic soundness, all token lists) + node-sequence correspondence + crash-classifying fuzz",
+        design="§4 C15"),
     "C17": dict(
         text="Lean model of the flat node array and of build_header_nodes (skip private zones, stop at the endless zone, "
              "rebase references by the number of skipped nodes, clear the pub flag) with a refinement theorem: for every module "
